@@ -306,7 +306,31 @@ fn pre_scenarios() -> Vec<Pre> {
         } },
         Pre { name: "buffer_allocate||buffer_allocate", site: "buf.try_allocate.between_check_and_add", run: || {
             let bm = BufferManager::with_budget(1000);
-            let hard = bm.budget();
+            // the hard limit is a fraction of the budget (public in the config)
+            let hard = (bm.config().budget as f64 * bm.config().hard_limit_fraction) as usize;
+            let (b1, b2) = (Arc::clone(&bm), Arc::clone(&bm));
+            // two requests that fit one at a time, whose sum lies between the hard limit and the budget
+            let size = (hard + bm.config().budget) / 4 + 1;
+            let g1: Arc<parking_lot::Mutex<Option<grafeo_common::memory::buffer::MemoryGrant>>> = Arc::new(parking_lot::Mutex::new(None));
+            let g2 = Arc::clone(&g1);
+            let held: Arc<parking_lot::Mutex<Option<grafeo_common::memory::buffer::MemoryGrant>>> = Arc::new(parking_lot::Mutex::new(None));
+            let held2 = Arc::clone(&held);
+            let (reached, bfin) = interleave("buf.try_allocate.between_check_and_add", move || { *g2.lock() = b1.try_allocate(size, MemoryRegion::ExecutionBuffers); }, move || { *held2.lock() = b2.try_allocate(size, MemoryRegion::ExecutionBuffers); });
+            let mut bad = Vec::new();
+            let granted = g1.lock().as_ref().map_or(0, |g| g.size()) + held.lock().as_ref().map_or(0, |g| g.size());
+            if granted > hard {
+                bad.push("granted_more_than_hard_limit".to_string());
+            }
+            *g1.lock() = None;
+            *held.lock() = None;
+            if bm.allocated() != 0 {
+                bad.push("allocated_not_zero_after_release".to_string());
+            }
+            finish(reached, bfin, bad)
+        } },
+        Pre { name: "buffer_allocate||buffer_allocate(large)", site: "buf.try_allocate.between_check_and_add", run: || {
+            let bm = BufferManager::with_budget(1000);
+            let hard = (bm.config().budget as f64 * bm.config().hard_limit_fraction) as usize;
             let (b1, b2) = (Arc::clone(&bm), Arc::clone(&bm));
             let size = hard * 6 / 10;
             let g1: Arc<parking_lot::Mutex<Option<grafeo_common::memory::buffer::MemoryGrant>>> = Arc::new(parking_lot::Mutex::new(None));
@@ -596,7 +620,7 @@ fn stress_lpg(rep: &mut Report, seed: u64, case: u64, threads: usize, ops: usize
 fn stress_rdf_buffer(rep: &mut Report, seed: u64, case: u64, threads: usize, ops: usize) {
     let st = Arc::new(RdfStore::new());
     let bm = BufferManager::with_budget(10_000);
-    let hard = bm.budget() as u64;
+    let hard = (bm.config().budget as f64 * bm.config().hard_limit_fraction) as u64;
     let outstanding = Arc::new(AtomicU64::new(0));
     let over = Arc::new(AtomicU64::new(0));
     hooks::CHAOS_SEED.store(seed ^ case.wrapping_mul(0x51ED_2701) | 1, Ordering::SeqCst);
